@@ -56,9 +56,15 @@ open Nexus.L2 Nexus.Gen.N Nexus
 /-! ### call order -/
 
 /-- Two steps i < j of a run each open a new invocation towards callee `k` (an INVOCATION whose id is not that of a
-    stored invocation — the first chunk of a call).  Then the callee's stream contains the two INVOCATIONs in
-    that order, and the second has the larger invocation id.  (Nothing is assumed about the callers: in
-    particular for two calls by one caller.) -/
+    stored invocation — the first chunk of a call).  Then
+    * each of the two steps is the CALL step of some caller `cᵢ` with request `qᵢ` (a new call: not pending before),
+      the INVOCATION is the only message of that step, carries that CALL's arguments, and the step records the
+      invocation `(k, rᵢ)` for the call `(cᵢ, qᵢ)`;
+    * the callee's stream contains the two INVOCATIONs in the order of the two CALL steps, and the second has the
+      larger invocation id.
+    Nothing is assumed about the callers: in particular for `c₁ = c₂`, two calls by one caller that are routed to the
+    same callee reach it in the order in which the dealer processed them (= the order the caller sent them,
+    `C08.fifo_per_kind`), whatever other sessions do in between. -/
 theorem C08_call_order {s s' s1 s2 : DState} {o1 o2 : DOut} {tr1 tr2 tr3 : List (DState × DOut)}
     (run : Run s (tr1 ++ (s1, o1) :: (tr2 ++ (s2, o2) :: tr3)) s') (h : DealerInv s) (k : SessKey)
     (x1 x2 : Send) (hx1 : x1 ∈ o1.sends) (hx2 : x2 ∈ o2.sends) (hk1 : x1.to = k) (hk2 : x2.to = k)
@@ -67,7 +73,11 @@ theorem C08_call_order {s s' s1 s2 : DState} {o1 o2 : DOut} {tr1 tr2 tr3 : List 
     (hnew1 : ∀ v ∈ s1.d.invs, v.id ≠ ⟨k, r1⟩) (hnew2 : ∀ v ∈ s2.d.invs, v.id ≠ ⟨k, r2⟩) :
     r1 < r2 ∧
     outStream k (tr1 ++ (s1, o1) :: (tr2 ++ (s2, o2) :: tr3)) =
-      outStream k tr1 ++ [x1.msg] ++ outStream k tr2 ++ [x2.msg] ++ outStream k tr3 := by
+      outStream k tr1 ++ [x1.msg] ++ outStream k tr2 ++ [x2.msg] ++ outStream k tr3 ∧
+    (∃ env c q opts proc rnd, o1 = syncCall env s1 c q opts proc a1 kw1 rnd ∧ o1.sends = [x1] ∧
+      (⟨c, q⟩ : ReqId) ∉ s1.d.calls ∧ ∃ v ∈ o1.st.d.invs, v.callId = ⟨c, q⟩ ∧ v.id = ⟨k, r1⟩ ∧ v.regId = g1) ∧
+    (∃ env c q opts proc rnd, o2 = syncCall env s2 c q opts proc a2 kw2 rnd ∧ o2.sends = [x2] ∧
+      (⟨c, q⟩ : ReqId) ∉ s2.d.calls ∧ ∃ v ∈ o2.st.d.invs, v.callId = ⟨c, q⟩ ∧ v.id = ⟨k, r2⟩ ∧ v.regId = g2) := by
   obtain ⟨m1, runA, runB⟩ := Run.split run
   obtain ⟨e1, st1, runC⟩ := Run.head runB
   simp only at e1 st1 runC
@@ -78,14 +88,14 @@ theorem C08_call_order {s s' s1 s2 : DState} {o1 o2 : DOut} {tr1 tr2 tr3 : List 
   subst e2
   have hinv1 := runA.inv h
   have hinv2 := runD.inv (st1.inv hinv1)
-  -- both steps are CALLs sending exactly that INVOCATION
-  have hi1 : x1.msg.isInvocation = true := by rw [hm1]; rfl
-  have hi2 : x2.msg.isInvocation = true := by rw [hm2]; rfl
-  obtain ⟨env1, c1, q1, op1, p1, ar1, k1, n1, rfl⟩ := st1.invocation_is_call hinv1 x1 hx1 hi1
-  obtain ⟨env2, c2, q2, op2, p2, ar2, k2, n2, rfl⟩ := st2.invocation_is_call hinv2 x2 hx2 hi2
-  have hs1 := (syncCall_invocations hinv1 c1 q1 op1 p1 ar1 k1 n1 x1 hx1 hi1).1
-  have hs2 := (syncCall_invocations hinv2 c2 q2 op2 p2 ar2 k2 n2 x2 hx2 hi2).1
-  refine ⟨?_, ?_⟩
+  -- both steps are CALLs sending exactly that INVOCATION, for the call they record
+  have hc1 := C03.C03_invocation_of_call hinv1 st1 x1 hx1 r1 g1 d1 a1 kw1 hm1 (hk1 ▸ hnew1)
+  have hc2 := C03.C03_invocation_of_call hinv2 st2 x2 hx2 r2 g2 d2 a2 kw2 hm2 (hk2 ▸ hnew2)
+  rw [hk1] at hc1
+  rw [hk2] at hc2
+  have hs1 : o1.sends = [x1] := by obtain ⟨_, _, _, _, _, _, _, hs, _⟩ := hc1; exact hs
+  have hs2 : o2.sends = [x2] := by obtain ⟨_, _, _, _, _, _, _, hs, _⟩ := hc2; exact hs
+  refine ⟨?_, ?_, hc1, hc2⟩
   · rcases C03.C03_inv_id_step hinv1 st1 x1 hx1 r1 g1 d1 a1 kw1 hm1 with ⟨_, e2, _⟩ | ⟨v, hv, hvi⟩
     · rcases C03.C03_inv_id_step hinv2 st2 x2 hx2 r2 g2 d2 a2 kw2 hm2 with ⟨f1, _, _⟩ | ⟨v, hv, hvi⟩
       · have := runD.gen_mono (st1.inv hinv1) k
@@ -95,6 +105,12 @@ theorem C08_call_order {s s' s1 s2 : DState} {o1 o2 : DOut} {tr1 tr2 tr3 : List 
     · exact absurd (hk1 ▸ hvi) (hnew1 v hv)
   · simp only [outStream_append, outStream_cons, hs1, hs2]
     simp [hk1, hk2]
+
+/-- the hypotheses are met: two consecutive calls (2, 11), (2, 12) by session 2 to the round-robin registration "s" of
+    `Ex.sShared`… both would go to different callees; to the single registration "p": both to session 1 -/
+example : (syncCall Ex.env Ex.sReg 2 11 [] "p" [] [] 0).sends.map (fun x => (x.to, x.msg.typeCode)) = [(1, 68)] ∧
+    (syncCall Ex.env (syncCall Ex.env Ex.sReg 2 11 [] "p" [] [] 0).st 2 12 [] "p" [] [] 0).sends.map
+      (fun x => (x.to, match x.msg with | .invocation r _ _ _ _ => r | _ => 0)) = [(1, 2)] := by decide +kernel
 
 /-! ### progressive results before the final reply -/
 
@@ -137,6 +153,15 @@ theorem C08_progress_order {s s' : DState} {tr : List (DState × DOut)} (c : Req
       have := hr.one
       rw [hrep] at this
       simp at this
+
+/-- … the same over runs that contain LATER CHUNKS of the (progressive) call `c`: the only CALL steps with id `c`
+    allowed are chunks of the pending call, i.e. no NEW call re-uses the id (`C02.C02_episode`; starting with the
+    CALL that opens the call: `C02.C02_episode_from_call`). -/
+theorem C08_progress_order_chunks {s s' : DState} {tr : List (DState × DOut)} (c : ReqId) (run : Run s tr s')
+    (h : DealerInv s) (hno : ∀ p ∈ tr, IsCallStep p.1 p.2 c → c ∈ p.1.d.calls) :
+    ∃ ps f, replyStream c tr = ps ++ f ∧ (∀ x ∈ ps, x.msg.isFinalReply = false) ∧
+      (f = [] ∨ ∃ x, f = [x] ∧ x.msg.isFinalReply = true ∧ c ∉ s'.d.calls) :=
+  C02.C02_episode c run h hno
 
 /-- Every RESULT the dealer sends is the forwarding of one YIELD by the callee that owns the call's invocation —
     same arguments and keyword arguments, details `yieldDetails opts progress` — and it is the only message of
